@@ -1,1 +1,419 @@
-// harness bodies compiled inside quinn-proto/src/connection/mtud.rs (feature __verif-hooks)
+// Harness bodies for quinn-proto/src/connection/mtud.rs (path MTU discovery, black hole detection).
+
+use crate::Duration;
+
+/// Symbolic description of an `MtuDiscovery` (everything scalar).
+#[derive(Clone, Copy)]
+pub struct M {
+    pub current: u16,
+    pub min_mtu: u16,
+    pub enabled: bool,
+    pub phase: u8, // 0 Initial, 1 Searching, 2 Complete
+    pub peer_max: u16,
+    pub cfg_upper: u16,
+    pub min_change: u16,
+    pub lower: u16,
+    pub upper: u16,
+    pub last_probed: u16,
+    pub in_flight: bool,
+    pub in_flight_pn: u64,
+    pub lost: u8,
+    pub complete_secs: u32,
+    pub interval_secs: u32,
+    pub cooldown_secs: u32,
+    /// ghost: smallest peer max_udp_payload_size ever received (MAX_UDP_PAYLOAD if none)
+    pub ghost_min_peer: u16,
+}
+
+/// Representation invariant of every reachable `MtuDiscovery` (transport config validation
+/// guarantees min_mtu >= 1200 and initial_mtu >= min_mtu; transport parameter validation
+/// guarantees peer max_udp_payload_size >= 1200).
+fn inv(m: &M) -> bool {
+    if m.min_mtu < 1200 || m.min_mtu > crate::MAX_UDP_PAYLOAD || m.peer_max < 1200 || m.ghost_min_peer < 1200 || m.cfg_upper > crate::MAX_UDP_PAYLOAD {
+        return false;
+    }
+    // bound: minimum_change = 0 is a degenerate configuration (the search never terminates)
+    if m.min_change == 0 {
+        return false;
+    }
+    // never below the smaller of the configured minimum and (every) peer limit received
+    if m.current < m.min_mtu.min(m.ghost_min_peer) {
+        return false;
+    }
+    if !m.enabled {
+        // (`peer_max` is a ghost of the last value received: the disabled state does not store it)
+        return m.phase == 0 && m.current <= m.peer_max;
+    }
+    if m.ghost_min_peer > m.peer_max || m.current > m.peer_max {
+        return false;
+    }
+    match m.phase {
+        0 | 2 => true,
+        1 => {
+            m.lower <= m.current
+                && m.current <= m.last_probed
+                && m.last_probed <= m.upper
+                && m.upper <= m.peer_max
+                && m.upper <= m.cfg_upper.max(m.lower)
+                && m.lost <= 3
+                && (!m.in_flight || m.lost <= 2)
+                // the search's lower bound is the estimate, except right after a probe was acked
+                && (m.lower == m.current || (m.current == m.last_probed && m.lost == 0 && !m.in_flight))
+                // nothing in flight and nothing lost: the last probed size has been acked (or is the start)
+                && (m.in_flight || m.lost > 0 || m.current == m.last_probed)
+                // a probe that is in flight or was lost is strictly larger than the estimate
+                && (!(m.in_flight || m.lost > 0) || m.last_probed > m.current)
+        }
+        _ => false,
+    }
+}
+
+fn build(m: &M, bursts: &[u16], cur_burst: Option<(u16, u64)>, largest_post_loss: u64, acked_mtu: u16) -> Option<MtuDiscovery> {
+    let t = crate::verif::mk_instant(m.complete_secs, 0)?;
+    let config = MtuDiscoveryConfig {
+        interval: Duration::from_secs(m.interval_secs as u64),
+        upper_bound: m.cfg_upper,
+        minimum_change: m.min_change,
+        black_hole_cooldown: Duration::from_secs(m.cooldown_secs as u64),
+    };
+    let phase = match m.phase {
+        0 => Phase::Initial,
+        1 => Phase::Searching(SearchState {
+            lower_bound: m.lower,
+            upper_bound: m.upper,
+            minimum_change: m.min_change,
+            last_probed_mtu: m.last_probed,
+            in_flight_probe: if m.in_flight { Some(m.in_flight_pn) } else { None },
+            lost_probe_count: m.lost as usize,
+        }),
+        _ => Phase::Complete(t),
+    };
+    let mut det = BlackHoleDetector::new(m.min_mtu);
+    for &b in bursts {
+        det.suspicious_loss_bursts.push(LossBurst { smallest_packet_size: b });
+    }
+    det.current_loss_burst = cur_burst.map(|(s, pn)| CurrentLossBurst { smallest_packet_size: s, latest_non_probe: pn });
+    det.largest_post_loss_packet = largest_post_loss;
+    det.acked_mtu = acked_mtu;
+    Some(MtuDiscovery {
+        current_mtu: m.current,
+        state: if m.enabled { Some(EnabledMtuDiscovery { phase, peer_max_udp_payload_size: m.peer_max, config }) } else { None },
+        black_hole_detector: det,
+    })
+}
+
+fn read_back(d: &MtuDiscovery, m0: &M) -> M {
+    let mut m = *m0;
+    m.current = d.current_mtu;
+    m.min_mtu = d.black_hole_detector.min_mtu;
+    m.in_flight = false;
+    m.lost = 0;
+    match &d.state {
+        None => { m.enabled = false; m.phase = 0 }
+        Some(s) => {
+            m.enabled = true;
+            m.peer_max = s.peer_max_udp_payload_size;
+            m.cfg_upper = s.config.upper_bound;
+            m.min_change = s.config.minimum_change;
+            match s.phase {
+                Phase::Initial => m.phase = 0,
+                Phase::Complete(_) => m.phase = 2,
+                Phase::Searching(ss) => {
+                    m.phase = 1;
+                    m.lower = ss.lower_bound;
+                    m.upper = ss.upper_bound;
+                    m.last_probed = ss.last_probed_mtu;
+                    m.in_flight = ss.in_flight_probe.is_some();
+                    m.in_flight_pn = ss.in_flight_probe.unwrap_or(0);
+                    m.lost = ss.lost_probe_count as u8;
+                    // the search copies the configured minimum change
+                    assert!(ss.minimum_change == s.config.minimum_change || m0.phase == 1);
+                }
+            }
+        }
+    }
+    m
+}
+
+/// C13.a: one step of the MTU search from ANY state satisfying the invariant.
+/// op 0: poll_transmit(now, next_pn)   op 1: on_acked(space, pn, len)   op 2: on_probe_lost
+/// op 3: on_peer_max_udp_payload_size_received (only before probing started, as in the connection)
+pub fn search_step(
+    current: u16, min_mtu: u16, enabled: bool, phase: u8, peer_max: u16, cfg_upper: u16, min_change: u16,
+    lower: u16, upper: u16, last_probed: u16, in_flight: bool, in_flight_pn: u64, lost: u8,
+    complete_secs: u32, interval_secs: u32, cooldown_secs: u32, ghost_min_peer: u16,
+    op: u8, now_secs: u32, pn: u64, len: u16, space: u8, new_peer_max: u16,
+) -> u32 {
+    let m = M { current, min_mtu, enabled, phase, peer_max, cfg_upper, min_change, lower, upper, last_probed, in_flight, in_flight_pn, lost, complete_secs, interval_secs, cooldown_secs, ghost_min_peer };
+    if !inv(&m) || op > 3 || space > 2 {
+        return 0;
+    }
+    let Some(now) = crate::verif::mk_instant(now_secs, 0) else { return 0 };
+    let Some(mut d) = build(&m, &[], None, 0, min_mtu) else { return 0 };
+    let searching = enabled && phase == 1;
+    let mut f = 1u32;
+    match op {
+        0 => {
+            let r = d.poll_transmit(now, pn);
+            let n = read_back(&d, &m);
+            assert!(n.current == current);
+            match r {
+                Some(size) => {
+                    // only one probe at a time, and only while searching
+                    assert!(enabled && !(searching && in_flight));
+                    assert!(n.phase == 1 && n.in_flight && n.in_flight_pn == pn);
+                    assert!(size == n.last_probed);
+                    assert!(size <= n.peer_max);
+                    assert!(size <= n.cfg_upper.max(current));
+                    assert!(size >= current);
+                    assert!(d.in_flight_mtu_probe() == Some(pn));
+                    if searching && lost > 0 && lost < 3 {
+                        // retransmission of the same size, at most MAX_PROBE_RETRANSMITS attempts
+                        assert!(size == last_probed && n.lost == lost);
+                        f |= 2;
+                    } else {
+                        assert!(n.lost == 0);
+                        if searching && min_change >= 1 {
+                            // a fresh size: strictly inside the remaining interval => the search terminates
+                            assert!(size != last_probed);
+                            if lost == 0 { assert!(size > last_probed && n.lower == last_probed) } else { assert!(size < last_probed && n.upper == last_probed - 1) }
+                        }
+                        f |= 4;
+                    }
+                }
+                None => {
+                    assert!(d.in_flight_mtu_probe() == if searching && in_flight { Some(in_flight_pn) } else { None });
+                    if enabled && phase == 2 && now_secs < complete_secs {
+                        assert!(n.phase == 2);
+                    }
+                    if !enabled { f |= 64 } else { f |= 8 }
+                }
+            }
+            assert!(inv(&n));
+        }
+        1 => {
+            let sid = match space { 0 => SpaceId::Initial, 1 => SpaceId::Handshake, _ => SpaceId::Data };
+            let was_probe = d.on_acked(sid, pn, len);
+            let n = read_back(&d, &m);
+            let expect = space == 2 && searching && in_flight && in_flight_pn == pn;
+            assert!(was_probe == expect);
+            if expect {
+                // the estimate rises only here, and exactly to the size that was probed and acked
+                assert!(n.current == last_probed && n.current >= current);
+                assert!(!n.in_flight && n.lost == 0);
+                f |= 16;
+            } else {
+                assert!(n.current == current);
+                assert!(n.in_flight == (searching && in_flight));
+            }
+            assert!(inv(&n));
+        }
+        2 => {
+            // the connection reports loss of the in-flight probe only
+            if !(searching && in_flight) {
+                core::mem::forget(d);
+                return 0;
+            }
+            d.on_probe_lost();
+            let n = read_back(&d, &m);
+            assert!(n.current == current);
+            assert!(!n.in_flight && n.lost == lost + 1 && n.last_probed == last_probed);
+            assert!(inv(&n));
+            f |= 32;
+        }
+        _ => {
+            if searching {
+                core::mem::forget(d);
+                return 0;
+            }
+            if new_peer_max < 1200 {
+                core::mem::forget(d);
+                return 0;
+            }
+            d.on_peer_max_udp_payload_size_received(new_peer_max);
+            let mut n = read_back(&d, &m);
+            n.peer_max = new_peer_max;
+            n.ghost_min_peer = ghost_min_peer.min(new_peer_max);
+            assert!(n.current == current.min(new_peer_max));
+            if enabled {
+                assert!(d.state.as_ref().unwrap().peer_max_udp_payload_size == new_peer_max);
+            }
+            // never above the peer limit, never below min(min_mtu, every peer limit received)
+            assert!(n.current <= new_peer_max);
+            assert!(inv(&n));
+            if ghost_min_peer == crate::MAX_UDP_PAYLOAD {
+                // first reception: exactly the property's bound
+                assert!(n.current >= min_mtu.min(new_peer_max));
+            }
+            f |= 128;
+        }
+    }
+    core::mem::forget(d);
+    f
+}
+
+/// C13.a base case: `MtuDiscovery::new` / `disabled` establish the invariant for every validated
+/// configuration, and the first probe respects all bounds.
+pub fn new_establishes_inv(initial: u16, min_mtu: u16, has_peer: bool, peer_max: u16, cfg_upper: u16, min_change: u16, disabled: bool, pn: u64) -> u32 {
+    if min_mtu < 1200 || initial < min_mtu || initial > crate::MAX_UDP_PAYLOAD || peer_max < 1200 || cfg_upper > crate::MAX_UDP_PAYLOAD || min_change == 0 {
+        return 0;
+    }
+    let Some(now) = crate::verif::mk_instant(1, 0) else { return 0 };
+    let config = MtuDiscoveryConfig { interval: Duration::from_secs(600), upper_bound: cfg_upper, minimum_change: min_change, black_hole_cooldown: Duration::from_secs(60) };
+    let mut d = if disabled { MtuDiscovery::disabled(initial, min_mtu) } else { MtuDiscovery::new(initial, min_mtu, if has_peer { Some(peer_max) } else { None }, config) };
+    let eff_peer = if has_peer && !disabled { peer_max } else { crate::MAX_UDP_PAYLOAD };
+    let m0 = M { current: 0, min_mtu, enabled: !disabled, phase: 0, peer_max: eff_peer, cfg_upper, min_change, lower: 0, upper: 0, last_probed: 0, in_flight: false, in_flight_pn: 0, lost: 0, complete_secs: 0, interval_secs: 600, cooldown_secs: 60, ghost_min_peer: eff_peer };
+    let n = read_back(&d, &m0);
+    assert!(d.current_mtu() == initial.min(eff_peer));
+    assert!(n.phase == 0 || disabled);
+    assert!(inv(&n));
+    let r = d.poll_transmit(now, pn);
+    let n2 = read_back(&d, &m0);
+    assert!(inv(&n2));
+    let mut f = 1;
+    if let Some(size) = r {
+        assert!(!disabled);
+        assert!(size <= eff_peer && size <= cfg_upper.max(d.current_mtu()) && size >= d.current_mtu());
+        f |= 2;
+    } else {
+        f |= 4;
+    }
+    if disabled {
+        assert!(r.is_none() && d.in_flight_mtu_probe().is_none());
+        f |= 8;
+    }
+    core::mem::forget(d);
+    f
+}
+
+/// C13.b: one step of the black hole detector from any state with 0..=4 stored bursts.
+/// op 0: on_non_probe_lost(pn, len)  op 1: on_acked non-probe (pn, len)  op 2: black_hole_detected(now)
+pub fn black_hole_step(
+    current: u16, min_mtu: u16, nbursts: u8, b0: u16, b1: u16, b2: u16, b3: u16,
+    has_cur: bool, cur_size: u16, cur_pn: u64, largest_post_loss: u64, acked_mtu: u16,
+    enabled: bool, op: u8, pn: u64, len: u16, now_secs: u32, cooldown_secs: u32, peer_max: u16,
+) -> u32 {
+    if min_mtu < 1200 || peer_max < 1200 || current < min_mtu.min(peer_max) || current > peer_max || acked_mtu < min_mtu || nbursts > 4 || op > 2 {
+        return 0;
+    }
+    // stored suspicious bursts are always larger than min_mtu; no packet was ever larger than the
+    // estimate of its time, which never exceeds the peer's limit
+    let bs = [b0, b1, b2, b3];
+    let mut i = 0;
+    while i < nbursts as usize {
+        if bs[i] <= min_mtu || bs[i] > peer_max { return 0; }
+        i += 1;
+    }
+    if (has_cur && cur_size > peer_max) || len > peer_max {
+        return 0;
+    }
+    if op == 0 && has_cur && pn <= cur_pn {
+        return 0; // losses are reported in increasing packet number order
+    }
+    let Some(now) = crate::verif::mk_instant(now_secs, 0) else { return 0 };
+    let m = M { current, min_mtu, enabled, phase: 0, peer_max, cfg_upper: 1452, min_change: 20, lower: 0, upper: 0, last_probed: 0, in_flight: false, in_flight_pn: 0, lost: 0, complete_secs: 0, interval_secs: 600, cooldown_secs, ghost_min_peer: peer_max };
+    let cur = if has_cur { Some((cur_size, cur_pn)) } else { None };
+    let Some(mut d) = (match nbursts {
+        0 => build(&m, &bs[..0], cur, largest_post_loss, acked_mtu),
+        1 => build(&m, &bs[..1], cur, largest_post_loss, acked_mtu),
+        2 => build(&m, &bs[..2], cur, largest_post_loss, acked_mtu),
+        3 => build(&m, &bs[..3], cur, largest_post_loss, acked_mtu),
+        _ => build(&m, &bs[..4], cur, largest_post_loss, acked_mtu),
+    }) else { return 0 };
+    let mut f = 1u32;
+    match op {
+        0 => {
+            d.on_non_probe_lost(pn, len);
+            assert!(d.current_mtu == current);
+            let c = d.black_hole_detector.current_loss_burst.unwrap();
+            assert!(c.latest_non_probe == pn);
+            let contiguous = has_cur && pn - cur_pn == 1;
+            assert!(c.smallest_packet_size == if contiguous { cur_size.min(len) } else { len });
+            f |= if contiguous { 2 } else { 4 };
+        }
+        1 => {
+            let was_probe = d.on_acked(SpaceId::Data, pn, len);
+            assert!(!was_probe);
+            assert!(d.current_mtu == current);
+            assert!(d.black_hole_detector.acked_mtu == acked_mtu.max(len));
+            // bursts that the acknowledged size explains are no longer suspicious
+            let mut k = 0;
+            while k < d.black_hole_detector.suspicious_loss_bursts.len() {
+                assert!(d.black_hole_detector.suspicious_loss_bursts[k].smallest_packet_size > len.min(d.black_hole_detector.acked_mtu) || len <= acked_mtu);
+                k += 1;
+            }
+            assert!(d.black_hole_detector.suspicious_loss_bursts.len() <= nbursts as usize);
+            f |= 8;
+        }
+        _ => {
+            let detected = d.black_hole_detected(now);
+            let suspicious_new = has_cur && cur_size > min_mtu && !(cur_pn < largest_post_loss && cur_size <= acked_mtu);
+            let total = nbursts as usize + usize::from(suspicious_new && nbursts <= 3);
+            assert!(detected == (total > 3));
+            assert!(d.black_hole_detector.current_loss_burst.is_none());
+            if detected {
+                // fall back to the guaranteed minimum and forget the evidence
+                assert!(d.current_mtu == min_mtu);
+                // ... which is within the peer's limit whenever the evidence could have been collected
+                assert!(d.current_mtu <= peer_max);
+                assert!(d.black_hole_detector.suspicious_loss_bursts.is_empty());
+                if enabled {
+                    assert!(matches!(d.state.as_ref().unwrap().phase, Phase::Complete(_)));
+                }
+                assert!(d.in_flight_mtu_probe().is_none());
+                f |= 16;
+            } else {
+                assert!(d.current_mtu == current);
+                f |= 32;
+            }
+        }
+    }
+    // bounded memory, estimates stay above the guaranteed minimum
+    assert!(d.black_hole_detector.suspicious_loss_bursts.len() <= 4);
+    assert!(d.black_hole_detector.acked_mtu >= min_mtu);
+    assert!(d.current_mtu >= min_mtu.min(peer_max));
+    core::mem::forget(d);
+    f
+}
+
+/// C13 history demonstration (through the real API only, from `MtuDiscovery::new`): a path that
+/// delivers nothing larger than `initial` and additionally loses every MTU probe.  Whatever the
+/// search does, the estimate must never drop below min(min_mtu, peer limit) and every probe must
+/// be strictly larger than the current estimate (probing a size already known to work could only
+/// lower the estimate).
+pub fn history_all_probes_lost(initial: u16, cfg_upper: u16, min_change: u16, ack_below: u16) -> u32 {
+    if initial < 1200 || initial > 1300 || cfg_upper > 1500 || cfg_upper < initial || min_change == 0 || min_change > 32 {
+        return 0;
+    }
+    let Some(now) = crate::verif::mk_instant(1, 0) else { return 0 };
+    let config = MtuDiscoveryConfig { interval: Duration::from_secs(600), upper_bound: cfg_upper, minimum_change: min_change, black_hole_cooldown: Duration::from_secs(60) };
+    let mut d = MtuDiscovery::new(initial, initial, Some(1500), config);
+    let mut pn = 0u64;
+    let mut f = 1u32;
+    let mut round = 0;
+    while round < 64 {
+        round += 1;
+        match d.poll_transmit(now, pn) {
+            None => {
+                f |= 8;
+                break;
+            }
+            Some(size) => {
+                assert!(size > d.current_mtu(), "probe not larger than the current estimate");
+                assert!(size <= cfg_upper && size <= 1500);
+                if size < ack_below {
+                    // the network delivers it
+                    assert!(d.on_acked(SpaceId::Data, pn, size));
+                    assert!(d.current_mtu() == size);
+                    f |= 2;
+                } else {
+                    d.on_probe_lost();
+                    f |= 4;
+                }
+                assert!(d.current_mtu() >= initial, "estimate fell below the configured minimum");
+                pn += 1;
+            }
+        }
+    }
+    f
+}
